@@ -817,6 +817,36 @@ func engineQlz(c *Ctx) {
 	if c.tier == "thorough" {
 		arbPer = 24
 	}
+	// inputs shorter than their own header, systematically (every length 0..9 under every header form): the safe
+	// entry point must answer them with an error like any other malformed stream
+	{
+		r := root.Fork(0x7197)
+		q.apply("case", []string{fmt.Sprintf("%d-tiny", c.seed), "class=tiny", "n=0"})
+		for n := 0; n <= 9; n++ {
+			for _, b0 := range []byte{0x00, 0x01, 0x02, 0x03, 0x44, 0x45, 0x46, 0x47, 0x4c, 0x4d, 0x4e, 0x4f, 0xff} {
+				b := r.Bytes(n)
+				if n > 0 {
+					b[0] = b0
+				}
+				if r.Chance(75) {
+					if n > 1 && b0&2 == 0 {
+						b[1] = byte(n)
+					}
+					if n >= 5 && b0&2 != 0 {
+						put32(b, 1, uint32(n))
+					}
+				}
+				if n >= 9 {
+					clampAnnounce(b)
+				}
+				c.count("arb=tiny")
+				q.apply("arb", []string{"tiny", hx(b)})
+				q.apply("raw", []string{"G", "arb"})
+				q.apply("dec", []string{"G", "arb"})
+			}
+		}
+		q.apply("end", nil)
+	}
 	for ci := 0; ci < c.n; ci++ {
 		r := root.Fork(uint64(ci))
 		class := qlzClasses[(ci+int(c.seed%uint64(len(qlzClasses))))%len(qlzClasses)] // the shards start at different classes
